@@ -208,14 +208,13 @@ class Conv:
 # ---------------------------------------------------------------- Coq literals
 HEADER = """From Snax Require Import Base.Prelude Model.C20Phs.
 Definition A (i : Z) := SArg (Z.to_nat i).
-Definition C (a r : list Z) (n : Z) := SChoose ((a, r), Z.to_nat n).
+Definition C (s : sig) (n : Z) := SChoose (s, Z.to_nat n).
 Definition M (s : Z) (l r : src) := SMux (Z.to_nat s) l r.
-Definition N (a r : list Z) (n s : Z) (ops : list opk) (args : list src) := mkNode ((a, r), Z.to_nat n) (Z.to_nat s) ops args.
+Definition N (sg : sig) (n s : Z) (ops : list opk) (args : list src) := mkNode (sg, Z.to_nat n) (Z.to_nat s) ops args.
 Definition P (d n : Z) (ns : list node) (o : list src) := mkPe (Z.to_nat d) (Z.to_nat n) ns o.
-Definition O := mkOp.
 Definition KA (i : Z) := KArg (Z.to_nat i).
 Definition KO (i : Z) := KOp (Z.to_nat i).
-Definition K (a r : list Z) (k : opk) (args : list ksrc) := mkKop (a, r) k args.
+Definition K (sg : sig) (k : opk) (args : list ksrc) := mkKop sg k args.
 Definition B (n : Z) (ops : list kop) (y : list ksrc) := mkBody (Z.to_nat n) ops y.
 """
 
@@ -224,17 +223,40 @@ def zl(xs):
     return "[" + ";".join(zlit(x) for x in xs) + "]"
 
 
+# constants shared by all cases of a run (signatures, operations): defined once per cases file, which keeps
+# the literals short (elaboration time of the cases files is the bulk of the L1 cost)
+_REG: dict = {}
+
+
+def _reg(kind, lit):
+    key = (kind, lit)
+    if key not in _REG:
+        _REG[key] = f"{kind}{len(_REG)}"
+    return _REG[key]
+
+
+def reg_defs():
+    out = []
+    for (kind, lit), name in _REG.items():
+        out.append(f"Definition {name} : {'sig' if kind == 's' else 'opk'} := {lit}.")
+    return "\n".join(out)
+
+
+def c_sig(a, r):
+    return _reg("s", f"({zl(a)}, {zl(r)})")
+
+
 def c_src(s):
     if s[0] == "A":
         return f"A {s[1]}"
     if s[0] == "C":
         (a, r), n = s[1]
-        return f"C {zl(a)} {zl(r)} {n}"
+        return f"C {c_sig(a, r)} {n}"
     return f"M {s[1]} ({c_src(s[2])}) ({c_src(s[3])})"
 
 
 def c_opk(k):
-    return f"O {zlit(k[0])} {zlit(k[1])}"
+    return _reg("o", f"mkOp {zlit(k[0])} {zlit(k[1])}")
 
 
 def c_pe(p):
@@ -242,7 +264,7 @@ def c_pe(p):
         return "None"
     nodes = []
     for ((a, r), n), s, ops, args in p[2]:
-        nodes.append(f"N {zl(a)} {zl(r)} {n} {s} {coqlist(c_opk(k) for k in ops)} {coqlist(c_src(x) for x in args)}")
+        nodes.append(f"N {c_sig(a, r)} {n} {s} {coqlist(c_opk(k) for k in ops)} {coqlist(c_src(x) for x in args)}")
     return f"(P {p[0]} {p[1]} {coqlist(nodes)} {coqlist(c_src(x) for x in p[3])})"
 
 
@@ -253,7 +275,7 @@ def c_optpe(p):
 def c_body(b):
     def ks(s):
         return f"KA {s[1]}" if s[0] == "a" else f"KO {s[1]}"
-    ops = [f"K {zl(sg[0])} {zl(sg[1])} ({c_opk(k)}) {coqlist(ks(x) for x in args)}" for sg, k, args in b[1]]
+    ops = [f"K {c_sig(sg[0], sg[1])} {c_opk(k)} {coqlist(ks(x) for x in args)}" for sg, k, args in b[1]]
     return f"(B {b[0]} {coqlist(ops)} {coqlist(ks(x) for x in b[2])})"
 
 
@@ -743,7 +765,7 @@ def gen_case(rng, i):
 
 def search(ctx, deep=False):
     rng = ctx.rng
-    n = ctx.n(90, 1500) * (3 if deep else 1)
+    n = ctx.n(90, 1000) * (3 if deep else 1)
     fails = []
     for i in range(n):
         texts, order, stream = gen_case(rng, i)
@@ -776,7 +798,8 @@ def correspondence(ctx):
     from snaxc.phs.combine import append_to_abstract_graph
     from snaxc.phs.decode import decode_abstract_graph
     rng = ctx.rng
-    n = ctx.n(70, 1500)
+    n = ctx.n(70, 600)
+    _REG.clear()
     cases = {k: [] for k in ("enc", "app", "dec", "tsw", "wf", "kok")}
     meta = {k: [] for k in cases}
     conv = Conv()
@@ -857,7 +880,7 @@ def correspondence(ctx):
             sizes[sh] += len(c)
     texts_out = []
     for sh in shards:
-        t = [HEADER]
+        t = [HEADER, reg_defs()]
         for k in kinds:
             t.append(f"Definition cases_{k} : list ({types[k]}) := {coqlist(cases[k][i] for i in sh[k])}.")
             t.append(f"Eval vm_compute in failing ({tests[k]}) cases_{k}.")
